@@ -474,6 +474,9 @@ def build_binary():
 ADDR_RE = re.compile(r"cosmos1[0-9a-z]{38}")
 def c20_runtime(tier):
     """runs the binary built from /repo with default settings; returns (failures, commands_run, samples)"""
+    # a command that falls back to the operating system's keyring would launch a D-Bus session (and leave a
+    # directory under /tmp behind) each time: there is none to talk to in a sandbox
+    os.environ["DBUS_SESSION_BUS_ADDRESS"] = "disabled:"
     import tempfile
     fails, ran, samples = [], 0, []
     rc, out = build_binary()
